@@ -107,7 +107,13 @@ def main(argv):
             flush()
 
     flush()
-    atheris.Setup([sys.argv[0]] + lf_args, test_one)
+    # optional structure-aware mutator of the target: <function>_mutator(data, max_size, seed, byte_mutate) -> bytes
+    # (byte_mutate = libFuzzer's own mutation; the mutator decides how often to fall back to it)
+    mut = getattr(mod, attr + "_mutator", None)
+    if mut is None:
+        atheris.Setup([sys.argv[0]] + lf_args, test_one)
+    else:
+        atheris.Setup([sys.argv[0]] + lf_args, test_one, custom_mutator=lambda data, max_size, seed: mut(data, max_size, seed, atheris.Mutate))
     atheris.Fuzz()
 
 
